@@ -316,7 +316,14 @@ class Interp:
         if isinstance(st, ast.Import):
             for a in st.names:
                 if a.name.split('.')[0] == 'plinio' or self.find_module(a.name.split('.')[0]):
-                    raise Unsupported('plain import of a repo package')
+                    # a repository package: bound lazily (the module is loaded at the first attribute access - circular imports)
+                    if not self.find_module(a.name):
+                        raise Unsupported('plain import of an unknown repo package ' + a.name)
+                    if a.asname:
+                        m.env.set(a.asname, ModuleRef(self, a.name))
+                    else:
+                        m.env.set(a.name.split('.')[0], ModuleRef(self, a.name.split('.')[0]))
+                    continue
                 if a.asname:
                     m.env.set(a.asname, self.lib_module(a.name))
                 else:
@@ -1031,13 +1038,20 @@ class Interp:
             self.make_enum(ci)
 
     def make_enum(self, ci):
+        members, last = {}, 0
         for k, v in list(ci.cattrs.items()):
             if k.startswith('_'):
                 continue
+            if v is None:                   # enum.auto(): 1, 2, ... in definition order
+                v = last + 1
+            if isinstance(v, int):
+                last = v
             o = Obj(ci)
             o.attrs['name'] = k
             o.attrs['value'] = v
             ci.cattrs[k] = o
+            members[k] = o
+        ci.cattrs['__members__'] = members
 
     def exec_try(self, s, env):
         try:
